@@ -166,7 +166,17 @@ def first(root: ast.AST, pattern: str, binds: Optional[Dict[str, object]] = None
     return r[0] if r else (None, None)
 
 
-def expand_single_defs(fn: ast.AST, e: ast.AST, depth: int = 4, skip=()) -> ast.AST:
+def _alias_value(v: ast.AST) -> bool:
+    if isinstance(v, ast.Name):
+        return True
+    if isinstance(v, ast.Attribute):
+        return _alias_value(v.value)
+    if isinstance(v, ast.Subscript):
+        return _alias_value(v.value) and all(isinstance(x, (ast.Name, ast.Attribute, ast.Constant, ast.Load, ast.Subscript)) for x in ast.walk(v.slice))
+    return False
+
+
+def expand_single_defs(fn: ast.AST, e: ast.AST, depth: int = 4, skip=(), aliases_only: bool = False) -> ast.AST:
     """`e` with every read of a local that `fn` binds exactly once replaced by the value it is bound to (recursively):
     the expression the code computes, written without its temporaries.  For matching only."""
     import copy
@@ -177,7 +187,8 @@ def expand_single_defs(fn: ast.AST, e: ast.AST, depth: int = 4, skip=()) -> ast.
             self.d = d
 
         def visit_Name(self, n):
-            if isinstance(n.ctx, ast.Load) and n.id in env and n.id not in skip and self.d > 0:
+            if isinstance(n.ctx, ast.Load) and n.id in env and n.id not in skip and self.d > 0 \
+                    and (not aliases_only or _alias_value(env[n.id])):
                 return X(self.d - 1).visit(copy.deepcopy(env[n.id]))
             return n
 
